@@ -80,6 +80,8 @@ def cases(tier, seed):
                 yield {"kind": "prior", "prior": pr, "variant": variant, "seed": rnd.randrange(10**6)}
         for cname in CTOR_PRIOR_CLASSES:
             yield {"kind": "ctor_priors", "cls": cname, "seed": rnd.randrange(10**6)}
+        for by in ("closure", "name"):
+            yield {"kind": "shared_prior", "by": by, "seed": rnd.randrange(10**6)}
         for spec in ("RBFKernel", "ScaleKernel", "GaussianLikelihood", "PeriodicKernel"):
             for pr in ("GammaPrior", "LogNormalPrior", "HalfCauchyPrior", "UniformPrior"):
                 yield {"kind": "registered", "module": spec, "prior": pr, "seed": rnd.randrange(10**6)}
@@ -169,7 +171,7 @@ def run_case(case, ctx):
     from vf import util
 
     g = util.gen(case["seed"])
-    return {"constraint": _constraint, "setter": _setter, "sequence": _sequence, "prior": _prior, "registered": _registered, "ctor_priors": _ctor_priors, "aliasing": _aliasing}[case["kind"]](case, ctx, g)
+    return {"constraint": _constraint, "setter": _setter, "sequence": _sequence, "prior": _prior, "registered": _registered, "ctor_priors": _ctor_priors, "aliasing": _aliasing, "shared_prior": _shared_prior}[case["kind"]](case, ctx, g)
 
 
 def _constraint(case, ctx, g):
@@ -558,6 +560,54 @@ def _registered(case, ctx, g):
     back = getattr(mod, pub).detach()
     ctx.close("sample_from_prior_readback", back, expected.expand_as(back), (1e-9, 1e-7), cls="sample:" + case["prior"])
     check_invariant(ctx, module, "sample_from_prior")
+    ctx.cell({k: v for k, v in case.items() if k != "seed"})
+
+
+def _shared_prior(case, ctx, g):
+    """ONE prior object registered for several parameters (two parameters of one kernel, a kernel and its ScaleKernel; by
+    closure or by parameter name): every registration is enumerated, evaluated at ITS parameter, and its setting closure
+    stores into ITS parameter"""
+    import scipy.stats as st
+    import torch
+
+    import gpytorch
+
+    K, P = gpytorch.kernels, gpytorch.priors
+    per = K.PeriodicKernel()
+    sk = K.ScaleKernel(per)
+    # (registration by name puts the prior on the RAW parameter, which may be negative: a Normal prior there)
+    one = P.GammaPrior(2.0, 1.5) if case["by"] == "closure" else P.NormalPrior(0.3, 1.2)
+    dens = st.gamma(2.0, scale=1 / 1.5) if case["by"] == "closure" else st.norm(0.3, 1.2)
+    if case["by"] == "closure":
+        per.register_prior("vf_ls", one, lambda m: m.lengthscale, lambda m, v: m._set_lengthscale(v))
+        per.register_prior("vf_pl", one, lambda m: m.period_length, lambda m, v: m._set_period_length(v))
+        sk.register_prior("vf_os", one, lambda m: m.outputscale, lambda m, v: m._set_outputscale(v))
+    else:
+        per.register_prior("vf_ls", one, "raw_lengthscale")
+        per.register_prior("vf_pl", one, "raw_period_length")
+        sk.register_prior("vf_os", one, "raw_outputscale")
+    vals = {"vf_ls": 0.5, "vf_pl": 0.9, "vf_os": 1.7}
+    per.lengthscale, per.period_length, sk.outputscale = vals["vf_ls"], vals["vf_pl"], vals["vf_os"]
+    reads = {"vf_ls": lambda: per.lengthscale if case["by"] == "closure" else per.raw_lengthscale, "vf_pl": lambda: per.period_length if case["by"] == "closure" else per.raw_period_length,
+             "vf_os": lambda: sk.outputscale if case["by"] == "closure" else sk.raw_outputscale}
+    got = {}
+    for name, mod, prior, closure, setting in sk.named_priors():
+        got[name.split(".")[-1]] = (mod, prior, closure, setting)
+    ctx.expect("shared_prior_registrations_enumerated", sorted(got) == sorted(vals), f"named_priors() yields {sorted(got)} for registrations {sorted(vals)} of one prior object", by=case["by"])
+    for nm, (mod, prior, closure, setting) in got.items():
+        with torch.no_grad():
+            lp = prior.log_prob(closure(mod)).sum()
+            at = float(reads[nm]().reshape(-1)[0])
+        ctx.close("prior_closure_sees_constrained", lp, torch.tensor(dens.logpdf(at)), (1e-9, 1e-9), cls="shared:" + case["by"] + ":" + nm)
+        if setting is not None and case["by"] == "closure":
+            new = torch.tensor(vals[nm] * 1.31 + 0.07)
+            before = {k_: reads[k_]().detach().clone() for k_ in reads}
+            setting(mod, new)
+            back = reads[nm]().detach()
+            ctx.close("sample_from_prior_readback", back, new.expand_as(back), (1e-9, 1e-7), cls="shared:setting:" + nm)
+            for k_ in reads:
+                if k_ != nm:
+                    ctx.expect("shared_prior_setting_touches_only_its_parameter", bool(torch.equal(reads[k_]().detach(), before[k_])), f"setting closure of {nm} changed {k_}", by=case["by"])
     ctx.cell({k: v for k, v in case.items() if k != "seed"})
 
 
